@@ -125,6 +125,12 @@ enum Op {
     Panic,
     /// n times `catch{panic}` in a row (counters and stored texts must not wear out)
     CaughtBurst(usize),
+    /// a panic raised and recovered by a plain `catch_unwind` (never leaves the enclosing frame): the hook runs and
+    /// records it, but it is not the enclosing frame's panic
+    RecoveredPanic,
+    /// like CatchOwningGuard, but the guard's Drop runs `catch_panic(|| panic!(..))`: a nested frame that itself catches
+    /// a panic while the outer frame's panic is unwinding
+    CatchOwningPanickingGuard(Vec<Op>),
     /// panic with a `&'static str` payload (the hook reads `&str` and `String` payloads through different downcasts)
     PanicStatic,
     /// panic with a payload that is neither `&str` nor `String`: there is no message to demand, but the text
@@ -142,6 +148,8 @@ fn render(ops: &[Op]) -> String {
             Op::QueryBacktrace => "query".to_string(),
             Op::Catch(b) => format!("catch{{{}}}", render(b)),
             Op::CatchOwningGuard(b) => format!("catch+dropguard{{{}}}", render(b)),
+            Op::CatchOwningPanickingGuard(b) => format!("catch+dropguard(catch{{panic}}){{{}}}", render(b)),
+            Op::RecoveredPanic => "recovered-panic".to_string(),
             Op::Panic => "panic".to_string(),
             Op::CaughtBurst(n) => format!("{n} x catch{{panic}}"),
             Op::PanicStatic => "panic-static".to_string(),
@@ -159,7 +167,7 @@ fn gen_ops(budget: &mut usize, depth: usize) -> Vec<Op> {
         }
         *budget -= 1;
         // inside a frame panics and enable/disable flips are what matters; at top level, frames
-        let k = if depth == 0 { choose_w(&[4, 2, 1, 2, 1, 2, 9], "prog.op") } else { choose_w(&[3, 5, 3, 1, 1, 2, if depth < 4 { 6 } else { 0 }], "prog.op") };
+        let k = if depth == 0 { choose_w(&[4, 2, 1, 2, 1, 2, 9, 1], "prog.op") } else { choose_w(&[3, 5, 3, 1, 1, 2, if depth < 4 { 6 } else { 0 }, 2], "prog.op") };
         match k {
             0 => out.push(Op::Enable),
             1 => {
@@ -174,9 +182,14 @@ fn gen_ops(budget: &mut usize, depth: usize) -> Vec<Op> {
             3 => out.push(Op::InstallHook),
             4 => out.push(Op::SetFallbackContinue),
             5 => out.push(Op::QueryBacktrace),
+            7 => out.push(Op::RecoveredPanic),
             _ => {
                 let body = gen_ops(budget, depth + 1);
-                out.push(if chance(1, 5, "prog.dropguard") { Op::CatchOwningGuard(body) } else { Op::Catch(body) });
+                out.push(match choose_w(&[8, 1, 1], "prog.dropguard") {
+                    0 => Op::Catch(body),
+                    1 => Op::CatchOwningGuard(body),
+                    _ => Op::CatchOwningPanickingGuard(body),
+                });
             }
         }
     }
@@ -184,14 +197,57 @@ fn gen_ops(budget: &mut usize, depth: usize) -> Vec<Op> {
 }
 
 /// Dropped when the owning closure returns or unwinds: enters and leaves a (successful) catch_panic.
-struct CatchInDrop;
+struct CatchInDrop {
+    /// (task, message): the nested frame panics with this message - only if catching is enabled at that moment (a
+    /// transparent catch_panic would let the panic out of a destructor, which aborts the process when unwinding)
+    inner: Option<(usize, String)>,
+}
 
 impl Drop for CatchInDrop {
     fn drop(&mut self) {
-        if std::thread::panicking() {
+        let unwinding = std::thread::panicking();
+        if unwinding {
             kernel::count("c19.catch_during_unwind");
         }
-        let _ = catch_panic(|| 7u8);
+        match &self.inner {
+            Some((task, msg)) if wirefilter::verif::panic_catcher_enabled() => {
+                let (task, msg) = (*task, msg.clone());
+                if unwinding {
+                    kernel::count("c19.panic_caught_during_unwind");
+                }
+                let m2 = msg.clone();
+                let mut hs_at_panic = HookState::InTransit;
+                let hs_ref = &mut hs_at_panic;
+                let r = catch_panic(AssertUnwindSafe(move || -> u8 {
+                    // (entering the frame is a scheduling point: who holds the hook is read here, right at the panic)
+                    let hs = hook_state();
+                    *hs_ref = hs;
+                    let expect = match hs {
+                        HookState::InTransit => None,
+                        HookState::Installed => Some(false),
+                        HookState::NotInstalled => Some(true),
+                    };
+                    g(|s| s.expect.push((task, m2.clone(), expect)));
+                    panic!("{}", m2)
+                }));
+                let hs = hs_at_panic;
+                match r {
+                    Ok(_) => kernel::fail(v("panic-swallowed", "frame-in-destructor", format!("task {task}: the nested frame's body panicked with {msg:?} but catch_panic returned Ok"))),
+                    Err(text) => {
+                        if hs == HookState::Installed && !text.contains(msg.as_str()) {
+                            kernel::fail(v(
+                                "message-missing",
+                                "frame-in-destructor",
+                                format!("task {task}: a frame entered from a destructor caught {msg:?} but its error text is {:?}", text.lines().next()),
+                            ));
+                        }
+                    }
+                }
+            }
+            _ => {
+                let _ = catch_panic(|| 7u8);
+            }
+        }
     }
 }
 
@@ -309,8 +365,15 @@ fn exec_ops(ops: &[Op], m: &mut TaskModel) {
                 }
                 kernel::count("c19.caught_burst");
             }
-            Op::Catch(body) | Op::CatchOwningGuard(body) => {
-                let with_guard = matches!(op, Op::CatchOwningGuard(_));
+            Op::Catch(body) | Op::CatchOwningGuard(body) | Op::CatchOwningPanickingGuard(body) => {
+                let with_guard = !matches!(op, Op::Catch(_));
+                let guard_msg = matches!(op, Op::CatchOwningPanickingGuard(_)).then(|| {
+                    m.counter += 1;
+                    let msg = format!("g{}-{}-{};", m.run, m.task, m.counter);
+                    m.msgs.push(msg.clone());
+                    (m.task, msg)
+                });
+                let panicking_guard = guard_msg.is_some();
                 let catching = m.enabled;
                 let idx = m.frames.len();
                 m.frames.push(catching);
@@ -321,13 +384,17 @@ fn exec_ops(ops: &[Op], m: &mut TaskModel) {
                 let r = {
                     let mm = &mut *m;
                     catch_panic(AssertUnwindSafe(move || {
-                        let _guard = with_guard.then_some(CatchInDrop);
+                        let _guard = with_guard.then_some(CatchInDrop { inner: guard_msg });
                         exec_ops(body, mm);
                         42u32
                     }))
                 };
                 // reaching this line means catch_panic *returned*
                 m.frames.truncate(idx);
+                if panicking_guard {
+                    // whether the guard's frame panicked depended on the enabled flag at that moment
+                    m.last = Last::Unknown;
+                }
                 match r {
                     Ok(val) => {
                         crate::tr!("t{}: catch_panic #{idx} returned Ok", m.task);
@@ -368,6 +435,34 @@ fn exec_ops(ops: &[Op], m: &mut TaskModel) {
                     }
                 }
                 check_level(m, "after-catch");
+            }
+            Op::RecoveredPanic => {
+                m.counter += 1;
+                let msg = format!("r{}-{}-{};", m.run, m.task, m.counter);
+                let dc = depth_catching(m);
+                let hs = hook_state();
+                let expect = match hs {
+                    HookState::InTransit => {
+                        if dc > 0 {
+                            m.last = Last::Unknown;
+                        }
+                        None
+                    }
+                    HookState::Installed if dc > 0 => {
+                        m.last = Last::Msg(msg.clone());
+                        Some(false)
+                    }
+                    _ => Some(true),
+                };
+                m.msgs.push(msg.clone());
+                let task = m.task;
+                g(|s| s.expect.push((task, msg.clone(), expect)));
+                crate::tr!("t{}: panic {msg:?} recovered by a plain catch_unwind (catching frames={dc}, hook={hs:?})", m.task);
+                kernel::count("c19.recovered_panic");
+                let m2 = msg.clone();
+                if catch_unwind(AssertUnwindSafe(move || -> u8 { panic!("{}", m2) })).is_ok() {
+                    kernel::fail(v("panic-swallowed", "plain-catch_unwind", format!("task {}: {msg:?} did not unwind", m.task)));
+                }
             }
             Op::Panic | Op::PanicStatic | Op::PanicAny => {
                 m.counter += 1;
